@@ -80,6 +80,9 @@ func (g *exGen) gen(depth int) *ex {
 		return &ex{k: []byte{'q', 'Q'}[r.Intn(2)], kids: []*ex{g.gen(depth - 1)}}
 	case 3:
 		n := r.Intn(4)
+		if r.Intn(6) == 0 {
+			n = 5 + r.Intn(4) // long argument lists: the written order must survive any arity
+		}
 		e := &ex{k: 'f', text: g.funcs[r.Intn(len(g.funcs))]}
 		for i := 0; i < n; i++ {
 			e.kids = append(e.kids, g.gen(depth-1))
@@ -95,7 +98,17 @@ func (g *exGen) gen(depth int) *ex {
 // print modes: 0 minimal, 1 random extra parentheses, 2 full
 func (g *exGen) toks(e *ex, minLevel int, mode int) []string {
 	var out []string
-	kw := func(s string) string { return randCase(g.c, s) }
+	kw := func(s string) string {
+		// keyword letter case incl. the non-ASCII letters whose upper case is an ASCII letter (long s, dotless i)
+		if g.c.Rng.Intn(8) == 0 {
+			// (an expression identifier cannot START with a character above U+00FF, so the first letter stays ASCII)
+			alt := map[string][]string{"IS": {"Iſ", "iſ"}, "LIKE": {"lıke", "LıKE"}, "FALSE": {"falſe", "FALſE"}}
+			if a, ok := alt[s]; ok {
+				return a[g.c.Rng.Intn(len(a))]
+			}
+		}
+		return randCase(g.c, s)
+	}
 	switch e.k {
 	case 'c':
 		out = []string{e.text}
